@@ -94,7 +94,8 @@ func ValidateBasic(data []byte, signerAddr []Address, signatures []Signature) er
 		if err != nil {
 			return ErrInvalidPubkey
 		}
-		if !h.Address().Equal(s) {
+		// a required signer is an account address, a key type without an address must not match an empty one
+		if s.Err() != nil || !h.Address().Equal(s) {
 			return errors.Wrap(ErrUnmatchSigner, hex.EncodeToString(h.Address())+","+hex.EncodeToString(s))
 		}
 
